@@ -142,6 +142,9 @@ def yield_programs():
     out.append(('yieldcode A; hook h; parser { foreach { /a+b/; } do { h(); } yield A; "c"; }', y))
     out.append(('yieldcode A, B; parser { "a"; yield A; "b"; yield B; "a"; }', y + ["-O3"]))
     out.append(('yieldcode A; out str[3] s; parser { loop { s += [65]; "a"; yield A; } }', y + ["-O3", "-feof-support"]))
+    out.append(('yieldcode A; parser { "ab"; yield A; }', y + ["-O3"]))
+    out.append(('yieldcode A; parser { "ab"; yield A; }', y))
+    out.append(('yieldcode T, LAST; parser { loop { case { /[ab]+/ -> { yield T; } ";" -> { break; } } } "end"; yield LAST; }', y + ["-O3"]))
     return out
 
 
